@@ -26,7 +26,10 @@ class C06(scen.WorldProp):
                 "Wheatley.C06.udi_hand_start",
                 "Wheatley.C06.udi_back_start",
                 "Wheatley.C06.opening_row_rung",
-                "Wheatley.startNextRow_ctl"]
+                "Wheatley.startNextRow_ctl",
+                "Wheatley.C06.cli_up_down_in"]
+    # the command line: what of the built configuration this property is about
+    cli_fields = ['udi']
     level_text = ("theorems: Go arms the counter by stroke parity, the method starts at the least later row of the "
                   "start stroke, the stroke assertion never fires, Go during the method is a no-op, up-down-in counts "
                   "2/3 rows (all for arbitrary states). correspondence: timed sessions over the real Bot.main_loop, "
